@@ -275,7 +275,8 @@ pub fn run_mem(case: &Case, gens: &[GenType], caps: AllocCaps, tag: u64) -> LegO
     };
     // the exception itself was dropped in from_result(); drop the cursor and look at the input
     drop(buf);
-    let input_unique = input.is_unique();
+    // (an empty Bytes has a static vtable and never reports unique)
+    let input_unique = input.is_empty() || input.is_unique();
     drop(input);
     LegOut {
         res,
